@@ -108,6 +108,14 @@ class MonQueue(queue.Queue):
         super().__init__()
         self.mon = mon
         self.sched = sched
+        if sched is not None:
+            # the queue's own mutex is public (task_queue.mutex): code that
+            # holds it across several lines must block the other threads in
+            # the scheduler, not in a real lock the scheduler cannot see
+            self.mutex = ManagedLock(sched, reentrant=False)
+            self.not_empty = threading.Condition(self.mutex)
+            self.not_full = threading.Condition(self.mutex)
+            self.all_tasks_done = threading.Condition(self.mutex)
 
     def _put(self, item):
         super()._put(item)
@@ -132,19 +140,37 @@ class ManagedLock:
     the BertE instance: under the controlled scheduler an acquisition of a
     held lock is a scheduler block (the scheduler cannot see through a real
     lock); without a scheduler it is a real re-entrant lock."""
-    def __init__(self, sched):
+    def __init__(self, sched, reentrant=True):
         self.sched = sched
         self.real = threading.RLock()
         self.owner = None
         self.depth = 0
+        self.reentrant = reentrant
+
+    def _is_owned(self):                 # used by threading.Condition
+        return self.owner == threading.get_ident()
+
+    def _release_save(self):
+        d = self.depth
+        self.owner, self.depth = None, 0
+        return d
+
+    def _acquire_restore(self, d):
+        self.acquire()
+        self.depth = d
 
     def acquire(self, blocking=True, timeout=-1):
         if self.sched is None:
             return self.real.acquire(blocking, timeout)
         me = threading.get_ident()
-        if self.owner == me:
+        if self.owner == me and self.reentrant:
             self.depth += 1
             return True
+        if self.owner == me:
+            # a plain Lock taken twice by its owner: a real deadlock
+            if not blocking:
+                return False
+            self.sched.block_until(lambda: False)
         if self.owner is not None:
             if not blocking:
                 return False
